@@ -48,6 +48,18 @@ def run (t : Tier) : Emit Unit := do
       emit "C13" { op := "writePSI", args := [("psi", psi.toJson)], model := showWrite (writePSIData psi),
                    spec := some (showWrite (.ok (Spec.unitEncode 0 [bs] 0))), tag := "write-PMT-max-descriptor" }
       emit "C13" (parseCase (Spec.unitEncode 0 [bs] 0) (some psi) "parse-PMT-max-descriptor")
+  -- (1d) TOT sections for the first day of March and the last day of February of every year 1901..2038 (the days at
+  -- which the year/month arithmetic of the date formula turns over)
+  for y in [0:(if t.quick then 138 else 138)] do
+    for back in [0, 1] do
+      let year := 1901 + y
+      -- days from 1900-03-01 (MJD 15079 = day -25508 of the Unix era) to 1 March of `year`, by counting leap days
+      let n := ((List.range (year - 1900)).map fun i => 365 + (if Spec.isLeap (1900 + i + 1) then 1 else 0)).sum
+      let days : Int := (n : Int) - 25508 - (back : Int)
+      let sec ← liftGen (randBelow 86400)
+      let tot : TOTData := { descriptors := [], utcTime := days * 86400 + (sec : Int) }
+      let (s, bs) := mkSection 0x73 false none { tot := some tot }
+      emit "C13" (parseCase (Spec.unitEncode 0 [bs] 0) (some { pointerField := 0, sections := [s] }) "parse-TOT-march-1")
   -- (1c) the writer with several PAT / PMT sections in one unit: every section carries its own CRC
   for _ in [0:10 * t.scale] do
     let n ← liftGen (randRange 2 4)
